@@ -213,7 +213,7 @@ pub fn meta() -> Meta {
 
 pub fn run(cfg: &Cfg) -> Report {
     let shards = 64;
-    let per = cfg.n(12, 250);
+    let per = cfg.n(60, 1200);
     let reports = par_map(shards, |sh| {
         let mut rng = rng_for(cfg.seed, "C03", sh as u64);
         let mut rep = Report::new();
